@@ -51,6 +51,27 @@ CLAIMED = {
          "assumed contracts (mirrored and compared). Found and fixed D1 (fix: commit e511b47)"),
    technique="Lean 4 theorem over the injector fold + handler-level differential with spec oracle",
    design='7/C05'),
+ 'C06': dict(
+   text=("Proof (Lean 4): non-interference in the event model of per-connection capture state — for EVERY interleaving of any number "
+         "of connections (handshakes, frames, requests, reuse, disconnects) the data a request is fingerprinted from equals what its "
+         "own connection's events alone produce (attribution); the premise 'no other channel between connections' is a REGENERATED "
+         "fact: the list of package-level variables written after init in the fingerprinting packages (no_shared_channel). "
+         "Validated with 2..64 concurrent clients (crypto/tls + ten utls presets, h1 keep-alive and multiplexed h2) against one real "
+         "stack built with -race, each backend request compared with its own connection's specification values"),
+   note=("PARTIAL: goroutine scheduling is sampled, not enumerated; the theorem covers the event model. Trusted: Lean kernel + standard "
+         "axioms; translator (package-level writes, conservative w.r.t. shadowing); harness; race detector as schedule finder"),
+   technique="Lean 4 non-interference theorem + regenerated shared-state facts + concurrent end-to-end differential under -race",
+   design='7/C06'),
+ 'C07': dict(
+   text=("Proof (Lean 4): under the locked access protocol, for every history, every schedule interleaving reads with the arrival of "
+         "later frames and every limit, each value a handler observes is the fingerprint of the history at ONE instant not earlier "
+         "than its own HEADERS (locked_no_torn); under the unlocked protocol a torn mixture exists (unlocked_torn_witness, kernel-"
+         "evaluated); that the code follows the locked protocol is a REGENERATED fact (every capture write inside HTTP2Frames.Update, "
+         "Marshal takes the mutex). Validated server-level and end-to-end under -race with handlers marshalling while frames arrive"),
+   note=("PARTIAL: Go's memory model is represented only by 'regions under the mutex are atomic'; schedules are sampled by the race "
+         "detector. Found and fixed D4"),
+   technique="Lean 4 theorem over all schedules (locked protocol) + torn witness + regenerated lock-region facts + -race differential",
+   design='7/C07'),
  'C09': dict(
    text=("Proof (Lean 4): X-Forwarded-For = client's list + peer IP, X-Forwarded-Host = client's Host, X-Forwarded-Proto = https iff "
          "the inbound request is marked TLS, client Forwarded never survives (xff_spec, xfh, xfp, no_client_forwarded) for every "
